@@ -21,7 +21,8 @@ type ReplayFile struct {
 	PkgName       string
 	Files         map[string]string
 	NativeOutcome string
-	ModDir        string `json:",omitempty"`
+	ModDir        string            `json:",omitempty"`
+	ModFiles      map[string]string `json:",omitempty"`
 }
 
 // nativeReplay runs the harness natively (go test -overlay) with the model's inputs.
@@ -31,6 +32,22 @@ func nativeReplay(rep *ReplayFile) string {
 		return "error: " + err.Error()
 	}
 	defer os.RemoveAll(tmp)
+	if rep.ModFiles != nil {
+		if _, err := os.Stat(rep.PkgDir); err != nil {
+			// the scratch module is gone: rebuild it from the recorded files
+			mod := filepath.Join(tmp, "mod")
+			for name, content := range rep.ModFiles {
+				p := filepath.Join(mod, name)
+				os.MkdirAll(filepath.Dir(p), 0o755)
+				os.WriteFile(p, []byte(content), 0o644)
+			}
+			if sum, err := os.ReadFile(filepath.Join(repoDir, "go.sum")); err == nil {
+				os.WriteFile(filepath.Join(mod, "go.sum"), sum, 0o644)
+			}
+			rel, _ := filepath.Rel(rep.ModDir, rep.PkgDir)
+			rep = &ReplayFile{Property: rep.Property, Harness: rep.Harness, Assert: rep.Assert, Kind: rep.Kind, Model: rep.Model, PkgDir: filepath.Join(mod, rel), PkgName: rep.PkgName, Files: rep.Files}
+		}
+	}
 	replace := map[string]string{}
 	put := func(name, content string) {
 		p := filepath.Join(tmp, name)
